@@ -676,6 +676,46 @@ def stationary_start(res, r, viol_cap):
                 break
 
 
+def object_oracle(res, r, viol_cap):
+    """the documented form marginal_oracle=<a RegionGraph object>: the caller builds the oracle (with its default total), LocalInference assigns
+    the total of the call to it afterwards; on a disjoint family the result must be the closed-form optimum with that total"""
+    from mbi import LocalInference
+    from mbi.region_graph import RegionGraph
+    names = r.sample(['a', 'b', 'c', 'd', 'e'], 4)
+    dom = [[a, r.choice([2, 3])] for a in names]
+    sizes = dict(map(tuple, dom))
+    fam = [[names[0], names[1]], [names[2], names[3]]]
+    T = r.choice([50.0, 1000.0])
+    sigma = 0.02 * T
+    prng = np.random.RandomState(r.randrange(2**31))
+    meas = []
+    for cl in fam:
+        n = int(np.prod([sizes[x] for x in cl]))
+        meas.append((np.eye(n), prng.dirichlet(np.ones(n)) * T + prng.normal(0, sigma, n), sigma, tuple(cl)))
+    d_obj = rggen.mk_domain(dom)
+    for convex in (True, False):
+        canon = {'dom': dom, 'cliques': fam, 'total': T, 'oracle': 'RegionGraph object (convex=%s), total assigned by LocalInference' % convex, 'history': 'object-oracle'}
+        res.case(canon, True)
+        res.count('oracle object supplied by the caller (total assigned after construction)')
+        try:
+            with np.errstate(all='ignore'):
+                oracle = RegionGraph(d_obj, [tuple(c) for c in fam], convex=convex, iters=1)
+                model = LocalInference(d_obj, marginal_oracle=oracle, iters=600).estimate(meas, total=T)
+        except Exception as e:
+            viol_cap('failing-input', f'LocalInference with a RegionGraph object (convex={convex}) as oracle raises {type(e).__name__}: {str(e)[:100]}', {'request': canon}, 'local:object-oracle:raises')
+            continue
+        for Q, y, sg, cl in meas:
+            x = np.asarray(model.project(cl).datavector(), dtype=float)
+            ref = simplex_projection(y, T)
+            if not np.all(np.isfinite(x)) or x.min() < -1e-9 * T or abs(x.sum() - T) > 1e-6 * T:
+                viol_cap('failing-input', f'oracle object (convex={convex}), total {T}: table {list(cl)} is not a valid table (sum {x.sum()!r}, total {T})', {'request': canon}, 'local:object-oracle:invalid')
+                break
+            if np.abs(x - ref).max() > 1e-3 * T:
+                viol_cap('failing-input', f'oracle object (convex={convex}), total {T}, disjoint cliques: table {list(cl)} differs from the exact optimum by {np.abs(x - ref).max():.4g} records (600 iterations)',
+                         {'request': canon}, 'local:object-oracle:not-exact')
+                break
+
+
 def run(res, drv, tier, seed):
     if tier != 'quick':
         for q in PINNED:
@@ -694,6 +734,7 @@ def run(res, drv, tier, seed):
     for _ in range(1 if tier == 'quick' else 8):
         zeros_warm_history(res, r, tier, viol_cap)
         stationary_start(res, r, viol_cap)
+        object_oracle(res, r, viol_cap)
     sub = res.extra.get('suboptimality', [])
     if sub:
         res.extra['worst_suboptimality_local_at_200'] = max([s[2] for s in sub if s[1] >= 200], default=None)
